@@ -17,6 +17,7 @@ def toyC : Crypto where
   conf := fun l r tr => u8 l ++ vec16 r ++ tr
   mhash := fun m => [0xfe] ++ vec24 m
   ctx := ctxNum
+  seqCtx := fun a n => 2 ^ n * (2 * a + 1)
   hseal := fun k _ pt => vec16 (ctxTag k) ++ pt
   hopen := fun k _ ct => match readVec16 ct with
     | some (t, rest) => if t = ctxTag k then some rest else none
@@ -231,7 +232,9 @@ def hs (c : Case) : Verdict :=
   let idClass := if i.getD "id" "?" = "Golang-0" then "go" else "utls"
   let layout := i.getD "cl" "P"
   let lclass := if layout = "P" then "single" else if layout.endsWith "P" then "last" else if layout.startsWith "P" then "first" else "middle"
-  let tag := s!"{idClass},{srv},{lclass},{o.getD "c" "?"}"
+  let pre := i.getD "pre" "plain"
+  let preClass := if pre = "plain" then "" else s!"{pre},"
+  let tag := s!"{idClass},{srv},{preClass}{lclass},{o.getD "c" "?"}"
   let nch := (o.nat "nch").getD 0
   let secret := strBytes sn
   let accepting := srv = "accept" ∨ srv = "accept2" ∨ srv = "hrr"
@@ -246,6 +249,7 @@ def hs (c : Case) : Verdict :=
     let outer2 := (o.bytes "ch2").bind parseHello
     let c2 := o.getD "c2" "-"
     -- ---- monitors on the implementation's output (property clauses), part 1: needs no decryption
+    if o.getD "prenote" "ok" ≠ "ok" then .diff tag s!"prenote=ok (the pre-handshake steps themselves failed: {o.getD "prenote" "?"})" else
     if o.getD "leak" "?" ≠ "0" ∨ isInfix secret ch1B ∨ (nch ≥ 2 ∧ isInfix secret ch2B) then
       .propFail tag "server-name-in-plaintext-flight"
     else if outer1.serverName ≠ some (strBytes pub) ∨ (nch ≥ 2 ∧ (outer2.bind (·.serverName)) ≠ some (strBytes pub)) then
@@ -293,9 +297,14 @@ def hs (c : Case) : Verdict :=
     -- (3) the handshake run; HPKE contexts from (public key, "tls ech\0" ‖ config bytes) on both sides
     let cfg : VerifyPlan.Cfg := ⟨sn, "", false, false, true⟩
     let cctx := clientCtx toyC picked
-    let innerRandom := inner.vr.drop 2
     let aad1 := outer1.body
-    let view1 := tryKeys toyC keys outer1 aad1 (toyC.hseal cctx aad1 enc1)
+    let innerRandom := inner.vr.drop 2
+    -- the first hello is sealed at sequence 0 by the context of its last marshal (`marshalSeq`), whatever
+    -- BuildHandshakeState / MarshalClientHello calls preceded; the server's fresh receiver opens at 0
+    let nMarshal := if pre = "build1" then 2 else if pre = "build2" ∨ pre = "remarshal" then 3 else 1
+    let marshals := (List.range nMarshal).map fun _ => (cctx, aad1, enc1)
+    let payload1 := ((marshalSeq toyC none marshals).1).getD []
+    let view1 := tryKeys toyC keys 0 outer1 aad1 payload1
     let pred : Pred :=
       if !hrrMode then
         match clientInnerMsg utls inner outer1 mnl ot with
@@ -331,7 +340,7 @@ def hs (c : Case) : Verdict :=
               else
                 let aad2 := o2.body
                 if acc then
-                  let view2 := tryKeys toyC keys o2 aad2 (toyC.hseal cctx aad2 lastEnc)
+                  let view2 := tryKeys toyC keys 1 o2 aad2 (Sender.seal toyC ⟨cctx, 1⟩ aad2 lastEnc).1
                   match clientInnerMsg utls inner o2 mnl ot with
                   | none => ⟨"abort", "0", "0", "-", "-", "-"⟩
                   | some m2 =>
